@@ -82,3 +82,20 @@ Print Assumptions C04_data_untouched.
 
 Example C04_example : select_num criteria ex_view = Some "c.addi"%string /\ wf_view ex_view /\ regs_ok ex_view.
 Proof. exact ex_view_selected. Qed.
+
+(* ---- tie of the guards to the source (Gen/Guards.v, regenerated from asm.py on every run; Proofs/Guards.v) -------------------
+   The model's `imm_unstable` (the test in front of the rule selection of transform_compressible), `is_settled` and
+   `is_position_relative` ARE the interpretation of what the source says today: which classes are jumps, the class of the
+   immediate, the dictionary the reference must not be in, the arguments handed to is_settled and by it to expr.eval. *)
+From BB Require Gen.Guards Proofs.Guards.
+Theorem C04_guard_from_source : forall l pos consts labels cls fs,
+  imm_unstable l pos consts cls fs = Proofs.Guards.gen_imm_unstable l pos consts labels cls fs.
+Proof. exact Proofs.Guards.guard_from_source. Qed.
+Print Assumptions C04_guard_from_source.
+Theorem C04_settled_from_source : forall l pos consts labels e,
+  is_settled l pos consts e = Proofs.Guards.gen_is_settled Gen.Guards.cg_env Gen.Guards.cg_settled_args l pos consts labels e.
+Proof. exact Proofs.Guards.settled_from_source. Qed.
+Print Assumptions C04_settled_from_source.
+Theorem C04_position_relative_from_source : forall e, is_position_relative e = Proofs.Guards.gen_posrel e.
+Proof. exact Proofs.Guards.posrel_from_source. Qed.
+Print Assumptions C04_position_relative_from_source.
